@@ -278,10 +278,10 @@ func renegCutUnit(r refCfg) harness.Unit {
 func renegUnits() []harness.Unit {
 	var u []harness.Unit
 	cfgs := []refCfg{
-		{true, gmref.SuiteAESCBC, false, true, 0x0303, false, false}, {true, gmref.SuiteAESGCM, false, true, 0x0303, false, false},
-		{true, gmref.SuiteAESCBC, false, true, 0x0301, false, false}, {true, gmref.SuiteAESCBC, false, true, 0x0302, false, false},
-		{true, gmref.SuiteECDHERSAGCM, false, true, 0x0303, false, false}, {true, gmref.SuiteAESCBC, true, true, 0x0303, false, false},
-		{true, gmtls.GMTLS_ECC_SM4_CBC_SM3, false, false, 0, false, false}, {true, gmtls.GMTLS_ECC_SM4_GCM_SM3, false, false, 0, false, false},
+		{true, gmref.SuiteAESCBC, false, true, 0x0303, false, false, false}, {true, gmref.SuiteAESGCM, false, true, 0x0303, false, false, false},
+		{true, gmref.SuiteAESCBC, false, true, 0x0301, false, false, false}, {true, gmref.SuiteAESCBC, false, true, 0x0302, false, false, false},
+		{true, gmref.SuiteECDHERSAGCM, false, true, 0x0303, false, false, false}, {true, gmref.SuiteAESCBC, true, true, 0x0303, false, false, false},
+		{true, gmtls.GMTLS_ECC_SM4_CBC_SM3, false, false, 0, false, false, false}, {true, gmtls.GMTLS_ECC_SM4_GCM_SM3, false, false, 0, false, false, false},
 	}
 	for _, r := range cfgs {
 		u = append(u, renegPolicyUnit(r), renegMiscUnit(r), renegCutUnit(r))
